@@ -99,6 +99,9 @@ func packetSeeds() []packetSeed {
 		packetSeed{mk("transfer/channel-7/uusdc", "1", orb, ""), "transfer", "channel-7"},
 		packetSeed{mk("a/b/uusdc", "1", orb, m), "a", "b"},
 		packetSeed{mk("a/b/c/uusdc", "1", orb, m), "a/b", "c"},
+		packetSeed{mk("transfer/channel-7/uusdc", "1", orb, m), "transfer", "channel-07"},
+		packetSeed{mk("transfer/channel-07/uusdc", "1", orb, m), "transfer", "channel-07"},
+		packetSeed{mk("transfer/channel-7/uusdc", "010", orb, m), "transfer", "channel-7"},
 		packetSeed{"null", "transfer", "channel-7"},
 		packetSeed{"[]", "transfer", "channel-7"},
 		packetSeed{`{"denom":null,"amount":null,"receiver":null,"memo":null}`, "transfer", "channel-7"},
